@@ -33,15 +33,16 @@ func TestMain(m *testing.M) { evid.Main(m, "C04", rule, assumptions) }
 
 // Op is one operation of a history.
 type Op struct {
-	K     string   `json:"op"`             // map | mapto | set | invoke | fast | apply
-	Scope int      `json:"scope"`          // injector index (0 = outermost)
-	T     string   `json:"t,omitempty"`    // map/set: concrete type of the value; mapto: value type
-	As    string   `json:"as,omitempty"`   // mapto: interface; set: key type
-	In    []string `json:"in,omitempty"`   // invoke: parameter types; apply: field types
-	Tag   []bool   `json:"tag,omitempty"`  // apply: field tagged?
-	Out   int      `json:"out,omitempty"`  // invoke: number of results
-	Fast  int      `json:"fast,omitempty"` // fast: which of F0..F5
-	Nil   bool     `json:"nil,omitempty"`  // map/mapto/set: the value is the typed nil of T
+	K     string   `json:"op"`                  // map | mapto | set | invoke | fast | apply
+	Scope int      `json:"scope"`               // injector index (0 = outermost)
+	T     string   `json:"t,omitempty"`         // map/set: concrete type of the value; mapto: value type
+	As    string   `json:"as,omitempty"`        // mapto: interface; set: key type
+	In    []string `json:"in,omitempty"`        // invoke: parameter types; apply: field types
+	Tag   []bool   `json:"tag,omitempty"`       // apply: field tagged?
+	Out   int      `json:"out,omitempty"`       // invoke: number of results
+	Fast  int      `json:"fast,omitempty"`      // fast: which of F0..F5
+	Nil   bool     `json:"nil,omitempty"`       // map/mapto/set: the value is the typed nil of T
+	Depth int      `json:"ptr_depth,omitempty"` // apply: the struct is handed over behind 1+Depth pointers
 }
 
 type Case struct {
@@ -472,7 +473,18 @@ func checkApply(inj inject.Injector, scopes []*mscope, op Op, desc string, class
 			classes["apply-by-value-first"] = true
 		}
 	}
-	err := inj.Apply(target.Interface())
+	// the struct may sit behind several pointers (a **T out of a generic
+	// container, say): its fields are as settable as behind one
+	handle := target
+	for d := 0; d < op.Depth; d++ {
+		pp := reflect.New(handle.Type())
+		pp.Elem().Set(handle)
+		handle = pp
+	}
+	if op.Depth > 0 {
+		classes["apply-through-several-pointers"] = true
+	}
+	err := inj.Apply(handle.Interface())
 	if missing != "" {
 		if err == nil {
 			return evid.Fail("apply-no-error", "Apply succeeded although %s cannot be resolved; %s", showMissing(missing), desc)
@@ -636,6 +648,9 @@ func genCase(t *rapid.T) Case {
 			for j, m := 0, rapid.IntRange(1, 4).Draw(t, "nf"); j < m; j++ {
 				op.In = append(op.In, typeNames[rapid.IntRange(0, len(typeNames)-1).Draw(t, "ft")])
 				op.Tag = append(op.Tag, rapid.IntRange(0, 3).Draw(t, "tag") > 0)
+			}
+			if rapid.IntRange(0, 3).Draw(t, "deep") == 0 {
+				op.Depth = rapid.IntRange(1, 2).Draw(t, "depth")
 			}
 		}
 		if (op.K == "map" || op.K == "mapto" || op.K == "set") && nillable(op.T) {
